@@ -75,6 +75,14 @@ impl DecoOpts {
     }
 }
 
+/// sometimes a line comment after an own-line directive (`{$IFDEF X} // why`)
+fn directive_trailing_comment(rng: &mut Rng, deco: &DecoOpts, pieces: &mut Vec<Piece>, gaps: &mut Vec<String>) {
+    if deco.trailing_comment > 0 && rng.chance(deco.trailing_comment, 1000) {
+        gaps.push(" ".to_string());
+        pieces.push(Piece { kind: PieceKind::LineComment, text: line_comment_text(rng), verbatim: false });
+    }
+}
+
 /// `toks[comma]` is a comma; if it starts a removable element of a comma-separated list (the
 /// element ends before the next `,` `)` `]` or `;` at the same nesting depth and holds nothing that
 /// would make the list invalid without it), the index of the token that follows the element
@@ -272,6 +280,8 @@ impl Layout {
 
         // statements that may be wrapped in conditional directives: (first tok, tok after last)
         let mut wrap_start: std::collections::HashMap<usize, usize> = Default::default();
+        // alternative branch (`{$ELSE}` + one complete statement/declaration of the right kind) per wrap
+        let mut wrap_alt: std::collections::HashMap<usize, Vec<&'static str>> = Default::default();
         if deco.cond_wrap > 0 {
             for b in &prog.blocks {
                 let n = b.items.len();
@@ -280,13 +290,31 @@ impl Layout {
                     if let Some(end) = end {
                         if end > b.items[k] && rng.chance(deco.cond_wrap, 1000) {
                             wrap_start.insert(b.items[k], end);
+                            if rng.chance(1, 3) {
+                                use crate::gen::gram::BlockKind as BK;
+                                let alt: Option<Vec<&'static str>> = match b.kind {
+                                    BK::CtrlBegin | BK::PlainBegin | BK::AnonBegin | BK::Repeat | BK::Try | BK::Finally | BK::CaseElse | BK::UnitSection => Some(vec!["AltCall", "(", "1", ")", ";"]),
+                                    BK::DeclSection => match toks[b.opener].text.to_ascii_lowercase().as_str() {
+                                        "const" => Some(vec!["AltConst", "=", "1", ";"]),
+                                        "var" | "threadvar" => Some(vec!["AltVar", ":", "Integer", ";"]),
+                                        "type" => Some(vec!["TAlt", "=", "Integer", ";"]),
+                                        _ => None,
+                                    },
+                                    BK::Visibility | BK::TypeBody => Some(vec!["procedure", "AltMethod", ";"]),
+                                    // an `on` handler list takes handlers only
+                                    BK::Except => None,
+                                };
+                                if let Some(a) = alt {
+                                    wrap_alt.insert(b.items[k], a);
+                                }
+                            }
                         }
                     }
                 }
             }
         }
         // pending `{$ENDIF}` insertions keyed by token index before which they go (stack for nesting)
-        let mut pending_end: Vec<(usize, String, u16)> = vec![];
+        let mut pending_end: Vec<(usize, String, u16, Option<Vec<&'static str>>)> = vec![];
 
         // a conditional list element that is open: (token before which it closes, closing pieces)
         let mut inline_end: Option<(usize, Vec<Piece>)> = None;
@@ -306,10 +334,21 @@ impl Layout {
                 cur_indent = indent.clone();
             }
             // close conditional wraps that end before this token
-            while let Some(pos) = pending_end.iter().rposition(|(e, _, _)| *e == ti) {
-                let (_, text, d) = pending_end.remove(pos);
-                gaps.push(format!("{nl}{}", indent_unit.repeat(d as usize)));
+            while let Some(pos) = pending_end.iter().rposition(|(e, _, _, _)| *e == ti) {
+                let (_, text, d, alt) = pending_end.remove(pos);
+                let ind = indent_unit.repeat(d as usize);
+                if let Some(alt) = alt {
+                    gaps.push(format!("{nl}{ind}"));
+                    pieces.push(Piece { kind: PieceKind::Directive, text: if rng.chance(1, 5) { "{$else}".into() } else { "{$ELSE}".into() }, verbatim: false });
+                    directive_trailing_comment(rng, deco, &mut pieces, &mut gaps);
+                    for (k, w) in alt.iter().enumerate() {
+                        gaps.push(if k == 0 { format!("{nl}{ind}") } else if matches!(*w, "(" | ")" | ";" | ":") { String::new() } else { " ".to_string() });
+                        pieces.push(Piece { kind: PieceKind::Extra, text: w.to_string(), verbatim: false });
+                    }
+                }
+                gaps.push(format!("{nl}{ind}"));
                 pieces.push(Piece { kind: PieceKind::Directive, text, verbatim: false });
+                directive_trailing_comment(rng, deco, &mut pieces, &mut gaps);
             }
             let mut own_line_emitted = false;
             if t.line_start {
@@ -341,6 +380,7 @@ impl Layout {
                     gaps.push(format!("{lead}{indent}"));
                     lead = nl.to_string();
                     pieces.push(Piece { kind: PieceKind::Directive, text: directive_text(rng), verbatim: false });
+                    directive_trailing_comment(rng, deco, &mut pieces, &mut gaps);
                     own_line_emitted = true;
                 }
                 if let Some(&end) = wrap_start.get(&ti) {
@@ -356,7 +396,8 @@ impl Layout {
                     gaps.push(format!("{lead}{indent}"));
                     lead = nl.to_string();
                     pieces.push(Piece { kind: PieceKind::Directive, text: open, verbatim: false });
-                    pending_end.push((end, close.to_string(), t.depth));
+                    directive_trailing_comment(rng, deco, &mut pieces, &mut gaps);
+                    pending_end.push((end, close.to_string(), t.depth, wrap_alt.remove(&ti)));
                     own_line_emitted = true;
                 }
                 let _ = own_line_emitted;
@@ -428,7 +469,7 @@ impl Layout {
             }
         }
         // close wraps that extend to the end (should not happen since ends are tokens)
-        for (_, text, d) in pending_end.drain(..).rev() {
+        for (_, text, d, _) in pending_end.drain(..).rev() {
             gaps.push(format!("{nl}{}", indent_unit.repeat(d as usize)));
             pieces.push(Piece { kind: PieceKind::Directive, text, verbatim: false });
         }
